@@ -328,3 +328,7 @@ CHECKS['C03']['text'] += (
     "a customer in node k has a last closing record naming k ending at its arrival date there, at the exit iff the last record names -1 or is a baulk / rejection - in the executable scope Journey2.scope2 (all routers, reneging + jockeying, blocking, non-pre-emptive "
     "schedules, slots, class change; priority pre-emption resume / restart / resample where no node has a capacity); journey_refuted_preempt_blocked is a closed witness of F-02a outside it (a service record naming node 3 directly followed by a record at node 2). "
     "jrn2_b (sound) is evaluated on every in-scope real snapshot visited TOGETHER WITH the real cumulative record history and arrival nodes (dispatch 40).")
+CHECKS['C14']['text'] += (
+    " T2 on the STAGE-2 engine model, first half (Inv/Horizon2.v on Clock2.v + HorizonCount2.v): engine_horizon2 / Hzn2_means - inside Clock2.scope the loop of simulate_until_max_time executes only events due at the clock and dated before T, in "
+    "non-decreasing order; when it stops on its test NOTHING of any of the five event kinds is scheduled before T (arrival dates, every node's next date, server end dates, shift and slot dates, waiting customers' reneging and class-change dates); conservation at return; "
+    "hzn2_b (sound) holds on every in-scope real snapshot visited.")
